@@ -78,6 +78,21 @@ package queryexecutor
 //@ func QueryExecutor.runTraversal
 //@   lenient
 //@   safety off
-//@   modifies lastLoadErr, nSendResponse, alloc
+//@   modifies lastLoadErr, nSendResponse, lastQueryPanicErr, alloc
 //@   callsite QueryExecutor.loadBlock: assert $lnk == lnk && $lnkCtx == lnkCtx
 //@   callsite QueryExecutor.sendResponse: assert $link == lnk && $data == data
+
+//@ -- ============================ C22: a panic on the worker fails this response ============================
+//@ ghost lastQueryPanicErr error    -- result of the query executor's most recent panic-handler call
+//@ func QueryExecutor$panicHandler
+//@   assumed
+//@   modifies lastQueryPanicErr
+//@   ghost lastQueryPanicErr := result
+//@ -- the deferred recovery of runTraversal: a recovered panic becomes the error of the traversal, which the closing
+//@ -- transaction (executeQuery.func1) turns into the failed-unknown status of this one response
+//@ func QueryExecutor.runTraversal.func1
+//@   lenient
+//@   safety off
+//@   modifies lastQueryPanicErr
+//@   callsite QueryExecutor$panicHandler argis "recover()": assert true
+//@   ensures lastQueryPanicErr != nil ==> err == lastQueryPanicErr
